@@ -2,11 +2,21 @@
 // Plain map is one level key map. It contains keys like "lvl1.lvl2".
 package plainmap
 
-import "strings"
+import (
+	"fmt"
+	"strings"
+)
 
 // Any represent any type
 type Any interface{}
 
 func formatStringJSON(s string) string {
+	// the backslash itself and control characters must be escaped as well (before the quotes)
+	s = strings.Replace(s, "\\", "\\\\", -1)
+	for c := 0; c < 0x20; c++ {
+		if strings.IndexByte(s, byte(c)) != -1 {
+			s = strings.Replace(s, string(rune(c)), fmt.Sprintf("\\u%04x", c), -1)
+		}
+	}
 	return "\"" + strings.Replace(s, "\"", "\\\"", -1) + "\""
 }
